@@ -375,7 +375,8 @@ def h11():
                 out.append("refused")
         return repr(out)
 
-    return ([failing, lambda: repr(r.dump(WIDE_OBJ, Wide))],
+    # the dumper thread comes first: one preemption inside its request hands the retort to the failing request
+    return ([lambda: repr(r.dump(WIDE_OBJ, Wide)), failing],
             {"retort": r, "post": lambda: [repr(r.dump(WIDE_OBJ, Wide)), repr(r.load(WIDE_DATA, Wide)), failing()]})
 
 
